@@ -60,6 +60,23 @@ type C16DCase struct {
 	MITM     bool     `json:"mitm"`
 	ClientH  []string `json:"client_fields"`   // marker names the client sends (value "cv-<name>")
 	OriginH  []string `json:"response_fields"` // marker names the responding peer sends (value "rv-<name>")
+	// UARule: the --header list ends with a rule about a field the proxy and its HTTP library have opinions of their own
+	// on: "remove" (-User-Agent), "prefix" (-user-a*), "add" (User-Agent: rq-ua, only when the client sends none).
+	// ClientUA: the client sends a User-Agent. What reaches the next hop is what the rule says, nothing made up.
+	UARule   string `json:"ua_rule,omitempty"`
+	ClientUA bool   `json:"client_ua,omitempty"`
+}
+
+func (c C16DCase) uaFlag() string {
+	switch c.UARule {
+	case "remove":
+		return "-User-Agent"
+	case "prefix":
+		return "-user-a*"
+	case "add":
+		return "User-Agent: rq-ua"
+	}
+	return ""
 }
 
 var (
@@ -117,6 +134,10 @@ func genC16D(t *rapid.T) C16DCase {
 	c.OriginH = rapid.SliceOfDistinct(rapid.SampledFrom(all), rapid.ID[string]).Draw(t, "responsefields")
 	sort.Strings(c.ClientH)
 	sort.Strings(c.OriginH)
+	if rapid.IntRange(0, 2).Draw(t, "uarule") == 0 {
+		c.UARule = rapid.SampledFrom([]string{"remove", "prefix", "add"}).Draw(t, "uarulekind")
+		c.ClientUA = c.UARule != "add" && rapid.Bool().Draw(t, "clientua")
+	}
 	return c
 }
 
@@ -278,6 +299,9 @@ func runC16D(c C16DCase) (fails []vstat.Failure) {
 	for _, r := range c.Request {
 		args = append(args, "--header="+r.flag())
 	}
+	if f := c.uaFlag(); f != "" {
+		args = append(args, "--header="+f)
+	}
 	for _, r := range c.Connect {
 		args = append(args, "--connect-header="+r.flag())
 	}
@@ -371,7 +395,11 @@ func runC16D(c C16DCase) (fails []vstat.Failure) {
 			return []vstat.Failure{vstat.Failf("C16:harness", "dial: %v", err)}
 		}
 		tc.SetDeadline(time.Now().Add(10 * time.Second))
-		fmt.Fprintf(tc, "GET http://%s/c16 HTTP/1.1\r\nHost: %s\r\nX-Vid: %s\r\n%s\r\n", e.origin.Addr, e.origin.Addr, vid, clientWire.String())
+		ua := ""
+		if c.ClientUA {
+			ua = "User-Agent: cv-agent/1.0\r\n"
+		}
+		fmt.Fprintf(tc, "GET http://%s/c16 HTTP/1.1\r\nHost: %s\r\nX-Vid: %s\r\n%s%s\r\n", e.origin.Addr, e.origin.Addr, vid, ua, clientWire.String())
 		m, err := ReadResponse(bufio.NewReader(tc), "GET")
 		tc.Close()
 		if err != nil || m.Status != 200 {
@@ -384,6 +412,15 @@ func runC16D(c C16DCase) (fails []vstat.Failure) {
 			}
 			if d := compareMarkers(c.Response, markerFields(m.Fields), dApply(c.Response, originFields)); d != "" {
 				fails = append(fails, vstat.Failf(key("get:response"), "non-CONNECT response as delivered: %s (origin sent %q); %s", d, c.OriginH, desc))
+			}
+			if r := find(last, since, vid, "GET"); r != nil && c.UARule != "" {
+				var want []string
+				if c.UARule == "add" {
+					want = []string{"rq-ua"}
+				}
+				if got := r.Msg.Get("User-Agent"); fmt.Sprint(got) != fmt.Sprint(want) {
+					fails = append(fails, vstat.Failf(key("get:user-agent"), "--header %q, client sent User-Agent: %v: the next hop got User-Agent %q, the rule leaves %q; %s", c.uaFlag(), c.ClientUA, got, want, desc))
+				}
 			}
 		}
 	}
@@ -506,6 +543,9 @@ func flagsOf(rs []DRule) []string {
 
 func classifyC16D(c C16DCase) (bool, string, []string) {
 	cls := []string{fmt.Sprintf("upstream=%v", c.Upstream), fmt.Sprintf("mitm=%v", c.MITM)}
+	if c.UARule != "" {
+		cls = append(cls, "user-agent-rule-"+c.UARule)
+	}
 	lists := 0
 	for n, l := range map[string][]DRule{"request": c.Request, "connect": c.Connect, "response": c.Response} {
 		if len(l) > 0 {
